@@ -103,6 +103,14 @@ patch("internal/sync/mutex.go", [
 //go:linkname runtime_simYield
 func runtime_simYield()
 ''')
+# sync.Map (HashTrieMap) seeds itself from runtime.rand at first use. Maps that
+# are process globals (encoding/json's type caches, reflect, ...) are often
+# first touched outside the bubble, where the value depends on process history
+# (which M, how many earlier draws); the seed decides the trie shape and so the
+# number of atomic operations (= scheduling points) per lookup. Pin it.
+patch("internal/sync/hashtriemap.go", [
+    ("	ht.seed = uintptr(runtime_rand())", "	ht.seed = uintptr(0x9e3779b97f4a7c15 & (1<<(8*unsafe.Sizeof(uintptr(0))-1) - 1))\n	_ = runtime_rand"),
+])
 patch("sync/cond.go", [
     ("func (c *Cond) Wait() {\n", "func (c *Cond) Wait() {\n	runtime_simYield()\n"),
     ("func (c *Cond) Signal() {\n", "func (c *Cond) Signal() {\n	runtime_simYield()\n"),
@@ -426,7 +434,9 @@ func simPick(pp *p) *g {
 	// Canonical candidate order: fold runnext into the ring and sort the
 	// ring by goid, so that the k-th candidate does not depend on queue
 	// perturbations caused by non-bubble goroutines.
-	if next != 0 {
+	// (only when the ring has room: runqput may have filled all L slots, and
+	// writing one more would overwrite the head and duplicate a goroutine)
+	if next != 0 && n < L {
 		pp.runnext = 0
 		pp.runq[t%L].set(next.ptr())
 		t++
